@@ -47,9 +47,7 @@ class Bag(object):
     def to_dict(bag):
         bag.dicts.clear()
         for entity, objects in bag.objects.items():
-            for obj in objects:
-                dicts = bag.dicts[entity]
-                if obj not in dicts: bag._process_object(obj)
+            for obj in objects: bag._process_object(obj)
         result = defaultdict(dict)
         for entity, dicts in bag.dicts.items():
             composite_pk = len(entity._pk_columns_) > 1
@@ -72,20 +70,22 @@ class Bag(object):
                 if not process_related:
                     continue
                 if process_related_objects:
-                    for related_obj in value:
-                        if related_obj not in bag.dicts:
-                            bag._process_object(related_obj, process_related=False)
+                    for related_obj in value: bag._process_related_object(related_obj)
                 if attr.reverse.entity._pk_is_composite_:
                     value = sorted(bag._reduce_composite_pk(item._get_raw_pkval_()) for item in value)
                 else: value = sorted(item._get_raw_pkval_()[0] for item in value)
             elif attr.is_relation:
                 if value is not None:
-                    if process_related_objects:
-                        bag._process_object(value, process_related=False)
+                    if process_related_objects: bag._process_related_object(value)
                     value = value._get_raw_pkval_()
                     if len(value) == 1: value = value[0]
             d[attr.name] = value
         bag.dicts[entity][obj] = d
+    def _process_related_object(bag, obj):
+        entity = obj.__class__
+        # objects which were put into the bag explicitly are processed in full
+        if obj in bag.objects.get(entity, ()) or obj in bag.dicts[entity]: return
+        bag._process_object(obj, process_related=False)
     @cut_traceback
     def to_json(bag):
         return json.dumps(bag.to_dict(), default=json_converter, indent=2, sort_keys=True)
